@@ -78,7 +78,7 @@ func reqAny(name string, alts ...Req) Req {
 func (r *Report) guard(rule, construct string, in ssa.Instruction, reqs ...Req) bool {
 	all := true
 	for _, q := range reqs {
-		ok, wit := guardedOnAllPaths(in, q)
+		ok, wit := r.e.guardedOnAllPaths(in, q)
 		if !ok {
 			all = false
 		}
@@ -95,7 +95,7 @@ func (r *Report) guard(rule, construct string, in ssa.Instruction, reqs ...Req) 
 
 // guardedOnAllPaths: no path entry -> in.Block() avoids every edge that
 // establishes q.
-func guardedOnAllPaths(in ssa.Instruction, q Req) (bool, []ssa.Instruction) {
+func (e *Engine) guardedOnAllPaths(in ssa.Instruction, q Req) (bool, []ssa.Instruction) {
 	fn := in.Parent()
 	target := in.Block()
 	if len(fn.Blocks) == 0 {
@@ -124,6 +124,9 @@ func guardedOnAllPaths(in ssa.Instruction, q Req) (bool, []ssa.Instruction) {
 		if len(n.b.Instrs) > 0 {
 			ifi, _ = n.b.Instrs[len(n.b.Instrs)-1].(*ssa.If)
 		}
+		if e.blockFailStops(n.b) {
+			continue // control never leaves this block normally
+		}
 		for i, s := range n.b.Succs {
 			if seen[s] {
 				continue
@@ -138,6 +141,16 @@ func guardedOnAllPaths(in ssa.Instruction, q Req) (bool, []ssa.Instruction) {
 		}
 	}
 	return true, nil
+}
+
+// blockFailStops: the block contains a call that never returns.
+func (e *Engine) blockFailStops(b *ssa.BasicBlock) bool {
+	for _, in := range b.Instrs {
+		if c, ok := in.(*ssa.Call); ok && e.NoReturnCall(c) {
+			return true
+		}
+	}
+	return false
 }
 
 // ---------------------------------------------------------------------------
@@ -304,7 +317,7 @@ func constNameByVal(pkg *types.Package, t types.Type, c *ssa.Const) string {
 func (e *Engine) CellsReaching(t *HandlerTable, target *ssa.Function) []Cell {
 	disp := e.Func("(*internal/raft.raft).Handle")
 	var out []Cell
-	memo := map[*ssa.Function]bool{}
+	memo := map[string]bool{}
 	if t.reach == nil {
 		t.reach = map[*ssa.Function]map[*ssa.Function]bool{}
 	}
@@ -317,7 +330,8 @@ func (e *Engine) CellsReaching(t *HandlerTable, target *ssa.Function) []Cell {
 		return s
 	}
 	for _, c := range t.Cells {
-		reach, ok := memo[c.Fn]
+		mk := c.State + "/" + fname(c.Fn)
+		reach, ok := memo[mk]
 		if !ok {
 			set := reachOf(c.Fn)
 			reach = set[target]
@@ -330,7 +344,7 @@ func (e *Engine) CellsReaching(t *HandlerTable, target *ssa.Function) []Cell {
 					for _, s := range e.SitesIn(f, disp) {
 						for _, ty := range constMsgTypes(e, s) {
 							for _, c2 := range t.Cells {
-								if c2.Type == ty && c2.Fn != c.Fn {
+								if c2.Type == ty && c2.State == c.State && c2.Fn != c.Fn {
 									if reachOf(c2.Fn)[target] {
 										reach = true
 									}
@@ -340,7 +354,7 @@ func (e *Engine) CellsReaching(t *HandlerTable, target *ssa.Function) []Cell {
 					}
 				}
 			}
-			memo[c.Fn] = reach
+			memo[mk] = reach
 		}
 		if reach {
 			out = append(out, c)
